@@ -18,7 +18,7 @@ from common import Report, pick_samples, log
 from genlib import gen_request, generate, DEFAULT_OPTS
 
 FEATURES = ["iface", "impl2", "union", "enum", "scalar", "nesting", "dep_reason", "dep_iface", "input", "oneof",
-            "rootnames", "mutation", "subscription", "extend", "args", "enum_dep"]
+            "rootnames", "mutation", "subscription", "extend", "args", "enum_dep", "extend_impl"]
 
 
 def build(features):
@@ -31,7 +31,8 @@ def build(features):
     qfields = [FieldDef("a", "Int")]
     sel = [Field("a")]
     vars_ = []
-    if "iface" in f or "impl2" in f or "dep_iface" in f or "extend" in f:
+    late_ext = False
+    if "iface" in f or "impl2" in f or "dep_iface" in f or "extend" in f or "extend_impl" in f:
         ifields = [FieldDef("id", "ID!")]
         if "dep_iface" in f:
             ifields.append(FieldDef("old", "String", dep=(None,)))
@@ -49,6 +50,14 @@ def build(features):
                 o2.append(FieldDef("old", "String"))
             types.append(gql.obj("Obj2", o2, ["Node"]))
             node_sel.append(Inline("Obj2", [Field("size")]))
+        if "extend_impl" in f:
+            # `extend type Late implements Node` without a field block
+            late = [FieldDef("id", "ID!"), FieldDef("late", "Int")]
+            if "dep_iface" in f:
+                late.append(FieldDef("old", "String"))
+            types.append(gql.obj("Late", late))
+            late_ext = True
+            node_sel.append(Inline("Late", [Field("late")]))
         qfields.append(FieldDef("node", "Node"))
         sel.append(Field("node", node_sel))
     if "union" in f:
@@ -106,6 +115,8 @@ def build(features):
                         x = Inline("Obj", list(x.sel) + [Field("extra"), Field("tags")])
                     new.append(x)
                 sel[sel.index(s)] = Field("node", new)
+    if late_ext:
+        extensions.append(("Late", [], ["Node"]))
     types.append(gql.obj(qn, qfields))
     roots = {"query": qn}
     docs = [("Q", Doc([Op("query", "Op", sel, vars_)]))]
